@@ -311,6 +311,9 @@ func (d *drv) sessAfter(s *sess, e *event) (code int) {
 }
 
 func (d *drv) start(s *sess, ns string, b *blob, kind string) {
+	if s.pc != "idle" {
+		return
+	}
 	s.n, s.b, s.kind = ns, b, kind
 	d.nstart++
 	d.request(s.id, "POST", fmt.Sprintf("/namespace/%s/blobs/%s/uploads", ns, digestPath(b)), nil, nil)
@@ -327,6 +330,9 @@ func (d *drv) start(s *sess, ns string, b *blob, kind string) {
 }
 
 func (d *drv) patch(s *sess) {
+	if s.pc != "open" {
+		return // a scripted step whose context is not where the script expects it (changed code): skipped
+	}
 	d.request(s.id, "PATCH", fmt.Sprintf("/namespace/%s/blobs/%s/uploads/%s", s.n, digestPath(s.b), s.uid),
 		map[string]string{"Content-Range": fmt.Sprintf("0-%d", len(s.b.data))}, s.b.data)
 	e, takes, _ := d.settle(s.id)
@@ -342,6 +348,9 @@ func (d *drv) patch(s *sess) {
 }
 
 func (d *drv) commit(s *sess) {
+	if s.pc != "open" {
+		return // a scripted step whose context is not where the script expects it (changed code): skipped
+	}
 	path := fmt.Sprintf("/namespace/%s/blobs/%s/uploads/%s", s.n, digestPath(s.b), s.uid)
 	var body []byte
 	if s.kind == "dup" {
@@ -365,6 +374,9 @@ func (d *drv) abandon(s *sess) {
 
 // stepSess releases session s from its gate: SetPersist, AddTask, GenMeta or Ack.
 func (d *drv) stepSess(s *sess) {
+	if d.n.g.parked[s.id] == nil {
+		return // a scripted step whose context is not where the script expects it (changed code): skipped
+	}
 	name := map[string]string{"wb0": "SetPersist", "wb1": "AddTask", "wb2": "GenMeta", "wb3": "Ack"}[s.pc]
 	d.cur = s.id
 	ans := "go"
@@ -382,6 +394,9 @@ func (d *drv) stepSess(s *sess) {
 
 // execStep releases an executor context (a worker or the forced cleanup's SyncExec) from its gate.
 func (d *drv) execStep(x string) {
+	if d.n.g.parked[x] == nil {
+		return // a scripted step whose context is not where the script expects it (changed code): skipped
+	}
 	pc := d.wpc[x]
 	t := d.wtask[x]
 	if x == "fc" {
@@ -438,6 +453,9 @@ func (d *drv) fcAfter(e *event) {
 }
 
 func (d *drv) fstart() {
+	if d.fcpc != "idle" {
+		return // a scripted step whose context is not where the script expects it (changed code): skipped
+	}
 	d.nforce++
 	d.request("fc", "POST", "/forcecleanup?ttl_hr=1000000", nil, nil)
 	e, takes, _ := d.settle("fc")
@@ -446,6 +464,9 @@ func (d *drv) fstart() {
 }
 
 func (d *drv) fown(cand bool) {
+	if d.fcpc != "own" || d.n.g.parked["fc"] == nil {
+		return // a scripted step whose context is not where the script expects it (changed code): skipped
+	}
 	d.cur = "fc"
 	ans := "own"
 	if cand {
@@ -458,6 +479,9 @@ func (d *drv) fown(cand bool) {
 }
 
 func (d *drv) ffind() {
+	if d.fcpc != "find" || d.n.g.parked["fc"] == nil {
+		return // a scripted step whose context is not where the script expects it (changed code): skipped
+	}
 	d.cur = "fc"
 	d.release("fc", "go")
 	e, takes, _ := d.settle("fc")
@@ -466,6 +490,9 @@ func (d *drv) ffind() {
 }
 
 func (d *drv) fsx() {
+	if d.n.g.parked["fc"] == nil {
+		return // a scripted step whose context is not where the script expects it (changed code): skipped
+	}
 	d.cur = "fc"
 	d.release("fc", "go")
 	e, takes, _ := d.settle("fc")
@@ -511,6 +538,9 @@ func (d *drv) clstart(ready bool) {
 }
 
 func (d *drv) clfile() {
+	if d.n.g.parked["cl"] == nil {
+		return // a scripted step whose context is not where the script expects it (changed code): skipped
+	}
 	d.cur = "cl"
 	d.release("cl", "go")
 	e, takes, _ := d.settle("cl")
